@@ -413,6 +413,16 @@ def run_case(prop, seed, case):
                 return dict(ops=hist, dumps=dumps, fails=fails, kind='builder')
         nl = info['netlist']
         if prop == 'C07':
+            if rng.random() < 0.4:
+                # history before the clone: a block that instantiates cells of the netlist is created and then
+                # taken out of its library again - its children stay in the reference sets of those cells
+                # although they are no longer part of the netlist
+                lib = info['libs'][0]
+                d_idx = len(w.objs)
+                do(['create', 'defs', str(lib), netgen.tok_of_s('old_block'), '0', '0', '~'])
+                for j in range(rng.choice([1, 2])):
+                    do(['create', 'children', str(d_idx), netgen.tok_of_s('x%d' % j), '0', '0', str(rng.choice(info['all_defs']))])
+                do(['remove', 'defs', str(lib), str(d_idx)])
             r = rng.random()
             if r < 0.45:
                 root = nl
@@ -431,6 +441,13 @@ def run_case(prop, seed, case):
                     fails.append({'step': len(hist) - 1, 'oracle': 'Clone', 'failures': bad[:6]})
             return dict(ops=hist, dumps=dumps, fails=fails, kind=kind)
         n = w.objs[nl]
+        mids = [d for layer in info['layers'][1:-1] for d in layer]
+        if prop == 'C08' and mids and rng.random() < 0.4:
+            # history before: a port of a cell that is already instanced is widened, so the order in which the
+            # instances hold their outer pins differs from the port order of the definition
+            d = rng.choice(mids)
+            if info['ports'].get(d):
+                do(['items', 'pins', str(rng.choice(info['ports'][d])[0]), '1'])
         before = elab.elaborate(n)
         libs_before = dict((id(lib), (set(id(d) for d in lib.definitions), set(d.name for d in lib.definitions))) for lib in n.libraries)
         out = do(['uniquify', str(nl), FUEL])
@@ -439,6 +456,16 @@ def run_case(prop, seed, case):
             return dict(ops=hist, dumps=dumps, fails=fails, kind='uniq')
         if prop == 'C08':
             bad = c08_oracle(w, nl, before, libs_before)
+            if not bad and mids and rng.random() < 0.5:
+                # history after: one more instance of a cell that was cloned from, then uniquify again
+                do(['create', 'children', str(info['top_def']), netgen.tok_of_s('again'), '0', '0', str(rng.choice(mids))])
+                before = elab.elaborate(n)
+                libs_before = dict((id(lib), (set(id(d) for d in lib.definitions), set(d.name for d in lib.definitions))) for lib in n.libraries)
+                out = do(['uniquify', str(nl), FUEL])
+                if out != 'ok':
+                    bad.append('uniquify after adding an instance raised (%s)' % out)
+                else:
+                    bad = c08_oracle(w, nl, before, libs_before)
             if not bad:
                 snap = [w.dump_obj(i) for i in range(len(w.objs))]
                 nobj = len(w.objs)
